@@ -204,7 +204,7 @@ def run(ctx):
     order_rng = random.Random(ctx.seed)
     order_rng.shuffle(primary)
     order_rng.shuffle(secondary)
-    budget = 38 if ctx.quick else 380
+    budget = 36 if ctx.quick else 380
     import time
     t_run0 = time.time()          # the budget counts from here (imports done); at most 25 s of start-up slack on a loaded machine
 
@@ -282,8 +282,8 @@ def run(ctx):
     if done_primary and done_secondary:
         ctx.note("allow_beta copy of the space completed by this worker")
     # quick floors leave room for a loaded machine (the primary space completes in ~30 s on 4 idle cores; `exhaustive` says whether it did)
-    ctx.floor_distinct = 1000 if ctx.quick else 8100
-    k = 1 if ctx.quick else 4
-    ctx.floor_counters = {"histories": 1000 * k, "downgrade_steps": 400 * k, "connects_succeeded": 300 * k, "connects_failed": 200 * k,
-                          "explicit_version_rejected_and_kept": 100 * k, "beta_flag_errors_sent": 20 * k,
-                          "histories_connected_with_v5_segment_framing": 20 * k}
+    ctx.floor_distinct = 500 if ctx.quick else 8100
+    k = 1 if ctx.quick else 8
+    ctx.floor_counters = {"histories": 500 * k, "downgrade_steps": 200 * k, "connects_succeeded": 150 * k, "connects_failed": 100 * k,
+                          "explicit_version_rejected_and_kept": 50 * k, "beta_flag_errors_sent": 10 * k,
+                          "histories_connected_with_v5_segment_framing": 10 * k}
